@@ -100,6 +100,7 @@ type scenario struct {
 	MaxSteps  int
 	MaxRound  uint64
 	Crash     map[int]time.Duration // honest id -> time after which it stops (crash-silent), pre-GST only
+	SlowDest  int  // before stabilisation every message addressed to this honest member is slow (it leaves QUALITY on its time-out), all others are fast
 	RebroadcastAfterRound int // -1: the default (3); otherwise the round after which rebroadcast is scheduled without waiting for the phase timeout
 	SlowFloor bool // before stabilisation every message takes between 80% and 100% of PreGSTMaxDelay (a uniformly slow network)
 	Late      int  // honest id that starts the instance only long after stabilisation (0 = nobody)
@@ -308,6 +309,16 @@ func (w *world) broadcast(from int, m *gpbft.GMessage, byz bool) {
 			// uniformly slow network, except that in the very first second half of the honest members hear everybody: they leave QUALITY with
 			// the quorum-backed proposal, the others with the base -- views stay apart, rounds fail until the time-outs outgrow the delay
 			at = w.now.Add(10 * time.Millisecond)
+		}
+		if w.sc.SlowDest > 0 && w.sc.GST > 0 && !w.postGST() {
+			if id == w.sc.SlowDest && from != id {
+				at = w.now.Add(6*time.Second + time.Duration(w.rng.Int63n(int64(3*time.Second))))
+			} else {
+				at = w.now.Add(time.Duration(w.rng.Int63n(int64(200 * time.Millisecond))))
+			}
+			if lim := w.t0.Add(w.sc.GST + 500*time.Millisecond); at.After(lim) {
+				at = lim
+			}
 		}
 		if w.sc.Isolate && !byz && id == w.victim() && from != id {
 			at = at.Add(40 * time.Second) // delayed, not lost
